@@ -12,8 +12,11 @@ Line protocol for C15 (`drv_c15 symbols` / `drv_c15 addr`).
   objsyms FCOMMON                        model: ELF symbol table of the object (named symbols)
   spec FCOMMON                           Spec.symbols
   flags                                  model: the Obj list after parse (flags)
-  regions                                which known-finding regions the unit lies in; Spec.valid; the side condition
-                                         and the scope (InScope && symbolsSide) of C15_symbols_partial
+  regions                                which known-finding regions the unit lies in; Spec.valid and its parts; the rules
+                                         in force and the scope (Spec.symbolsScope) of C15_symbols_partial under them
+  rules A B C D                          use these rules (externInherits flagsFollow compositeFromDecls ownedData, 0/1) for
+                                         the following queries instead of `Rules.asBuilt` (the flags regenerated from /repo);
+                                         `rules asbuilt` switches back
 Every query prints its lines followed by `end`.
 -/
 import ChibiVerif.Model.Linkage
@@ -26,6 +29,7 @@ structure St where
   names : List String := []      -- index = Name
   decls : List Decl := []        -- reversed
   bad : Bool := false
+  rules : Rules := Rules.asBuilt
 
 def intern (st : St) (s : String) : St × Name :=
   match st.names.idxOf? s with
@@ -123,7 +127,9 @@ def query (st : St) (cmd : String) (arg : String) : List String :=
   match cmd with
   | "spec" => (Spec.Linkage.symbols fc ds).map (showEntry st)
   | "regions" =>
-    [s!"valid {bit (Spec.Linkage.valid ds)}",
+    [s!"rules {bit st.rules.externInherits} {bit st.rules.flagsFollow} {bit st.rules.compositeFromDecls} {bit st.rules.ownedData}",
+     s!"valid {bit (Spec.Linkage.valid ds)}",
+     s!"valid-core {bit (Spec.Linkage.validCore ds)}",
      s!"flags-frozen {bit (Spec.Linkage.flagsFrozenRegion ds)}",
      s!"inline-frozen-finding {bit (Spec.Linkage.inlineFrozenFinding ds)}",
      s!"dead-static-local {bit (Spec.Linkage.deadStaticLocalRegion ds)}",
@@ -132,8 +138,9 @@ def query (st : St) (cmd : String) (arg : String) : List String :=
      s!"flags-frozen-def {bit (Spec.Linkage.flagsFrozenDefRegion ds)}",
      s!"dead-static-local-visible {bit (Spec.Linkage.deadStaticLocalVisibleRegion ds)}",
      s!"refs-ordered {bit (Spec.Linkage.refsOrdered ds [] [])}",
-     s!"symbols-side {bit (Spec.Linkage.symbolsSide ds)}",
-     s!"theorem-scope {bit (Spec.Linkage.symbolsScope ds)}"] ++
+     s!"types-agree {bit ((Spec.Linkage.objNames ds).all (fun x => Spec.Linkage.tysAgree (Spec.Linkage.objDecls ds x)))}",
+     s!"block-externs-agree {bit (Spec.Linkage.blockExternsAgree ds)}",
+     s!"theorem-scope {bit (@Spec.Linkage.symbolsScope st.rules ds)}"] ++
     ((Spec.Linkage.fnNames ds).filterMap (fun f =>
       let D := Spec.Linkage.fnDecls ds f
       if Spec.Linkage.fnClass D != Spec.Linkage.fnClassFirst D then
@@ -144,7 +151,7 @@ def query (st : St) (cmd : String) (arg : String) : List String :=
       if !Spec.Linkage.fnInternal D && Spec.Linkage.fnInlineDefOnly D then some s!"inline-def-only {showSym st (.named f)}"
       else none))
   | _ =>
-    match parseUnit ds with
+    match @parseUnit st.rules ds with
     | .error e => [showErr st e]
     | .ok gs =>
       match cmd with
@@ -159,7 +166,9 @@ partial def loop (h : IO.FS.Stream) (st : St) : IO UInt32 := do
   let ws := (line.trimAscii.toString.splitOn " ").filter (· ≠ "")
   match ws with
   | [] => loop h st
-  | ["unit"] => loop h {}
+  | ["unit"] => loop h { rules := st.rules }
+  | ["rules", "asbuilt"] => loop h { st with rules := Rules.asBuilt }
+  | ["rules", a, b, c, d] => loop h { st with rules := ⟨b01 a, b01 b, b01 c, b01 d⟩ }
   | "fn" :: name :: s :: e :: i :: kind :: items =>
     let (st, f) := intern st name
     if kind == "decl" then
